@@ -1,5 +1,7 @@
-// C33 correspondence harness for package dot/network/messages (injected by `go test -overlay`);
-// it also drives types.NewBodyFromBytes.
+// C33 correspondence harness for the decoders of package dot/network/messages and for
+// types.NewBodyFromBytes.  It is compiled into the dot/network test binary together with
+// props/C33/harness_network_test.go (one test binary less to link: the quick tier budget), which
+// dispatches the inputs below to c33mRun; everything used here is exported by package messages.
 //
 // inputs:
 //   dec warp|body <kind> <hex bytes>             WarpProofRequest.Decode / types.NewBodyFromBytes
@@ -7,20 +9,25 @@
 //                                                h/n: from_block hash/number bytes, -: none) is marshalled
 //                                                and given to BlockRequestMessage.Decode
 //   bresp <block>;<block>;...                    block = <header hex>/<entry hex>,<entry hex>,...  (- = absent)
+//                                                optionally followed by /<hash>/<receipt>/<message queue>/<justification>/<0|1>
+//                                                (the last: is_empty_justification; hash defaults to 32 zero bytes);
 //                                                a protobuf BlockResponse, BlockResponseMessage.Decode
 //   pbraw <breq|bresp|sreq|sresp> <hex>          raw bytes to the protobuf-based decoders
 // observables:
 //   dec   -> as in props/C33/harness_network_test.go
 //   breq  -> ok <data> <h:hex|n:number> <dir> <max|-> <re1|re0> <s|L> <t|T>  |  err <s|L> <t|T>
-//   bresp -> ok <number of blocks> <re~> <s|L> <t|T>  |  err <s|L> <t|T>
+//   bresp -> ok <number of blocks> <re1|re0> <s|L> <t|T> <view>  |  err <s|L> <t|T>
+//            view = the decoded blocks, `;`-separated (`-` for none), each
+//            <hash hex>|<header>|<body>|<receipt>|<message queue>|<justification>  with N for nil,
+//            S<rendering> otherwise (header: verifc33.Render of the types.Header, body: of the [][]byte)
 //   pbraw -> ok|err <s|L> <t|T>
-package messages
+package network
 
 import (
 	"fmt"
 	"strings"
-	"testing"
 
+	"github.com/ChainSafe/gossamer/dot/network/messages"
 	pb "github.com/ChainSafe/gossamer/dot/network/proto"
 	"github.com/ChainSafe/gossamer/dot/types"
 	"github.com/ChainSafe/gossamer/lib/common"
@@ -29,21 +36,18 @@ import (
 	"google.golang.org/protobuf/proto"
 )
 
-const (
-	c33Hash       = "arr(32,u8)"
-	c33DigestData = "st(_:arr(4,u8),_:bytes)"
-	c33DigestItem = "enum(D;0:sl(u8),4:" + c33DigestData + ",5:" + c33DigestData + ",6:" + c33DigestData + ",8:st())"
-	c33Header     = "st(_:" + c33Hash + ",_:uint,_:" + c33Hash + ",_:" + c33Hash + ",_:sl(" + c33DigestItem + "))"
-)
 
-var c33Descs = map[string]string{"warp": "st(_:" + c33Hash + ")", "body": "sl(bytes)"}
+var c33mDescs = map[string]string{"warp": "st(_:" + c33Hash + ")", "body": "sl(bytes)"}
 
-func c33Gen(r *vu.RNG, n int, emit func(string)) {
+func c33mGen(r *vu.RNG, n int, emit func(string)) {
 	for _, name := range []string{"warp", "body"} {
 		for _, b := range [][]byte{nil, {0}, {4}, {4, 4}, {0xff, 0xff}} {
 			emit("dec " + name + " rand " + vu.Hex(b))
 		}
 	}
+	emit("shape warp")
+	emit("shape breq")
+	emit("shape bresp")
 	emit("breq 1000000 n 01000000 0 0")
 	emit("breq 13000000 n 0100 1 80")
 	emit("breq 0 - - 0 0")
@@ -58,7 +62,7 @@ func c33Gen(r *vu.RNG, n int, emit func(string)) {
 		switch r.Intn(10) {
 		case 0, 1, 2:
 			name := []string{"warp", "body", "body"}[r.Intn(3)]
-			vc.Mutations(r, vc.ParseDesc(c33Descs[name]), func(kind string, b []byte) {
+			vc.Mutations(r, vc.ParseDesc(c33mDescs[name]), func(kind string, b []byte) {
 				emit("dec " + name + " " + kind + " " + vu.Hex(b))
 			})
 		case 3, 4:
@@ -123,7 +127,20 @@ func c33Gen(r *vu.RNG, n int, emit func(string)) {
 				if vc.MaxDeclared(vc.ParseDesc("sl(bytes)"), append(vc.Compact(uint64(len(es))), cat...)) > 1<<20 {
 					e = "-"
 				}
-				blocks = append(blocks, h+"/"+e)
+				blk := h + "/" + e
+				if r.Chance(1, 2) { // the pass-through fields and the hash
+					hash := r.Bytes([]int{32, 32, 0, 5, 40}[r.Intn(5)])
+					opt := func() string {
+						switch r.Intn(3) {
+						case 0:
+							return "-"
+						default:
+							return vu.Hex(r.Bytes(1 + r.Intn(4)))
+						}
+					}
+					blk += "/" + vu.Hex(hash) + "/" + opt() + "/" + opt() + "/" + opt() + "/" + []string{"0", "1"}[r.Intn(2)]
+				}
+				blocks = append(blocks, blk)
 			}
 			emit(strings.TrimSpace("bresp " + strings.Join(blocks, ";")))
 		default:
@@ -150,9 +167,49 @@ func c33Gen(r *vu.RNG, n int, emit func(string)) {
 	}
 }
 
-func c33Run(in string) string {
+// c33mBlocksView renders what BlockResponseMessage.Decode returned.
+func c33mBlocksView(bm *messages.BlockResponseMessage) string {
+	if len(bm.BlockData) == 0 {
+		return "-"
+	}
+	optBytes := func(p *[]byte) string {
+		if p == nil {
+			return "N"
+		}
+		return "S" + vu.Hex(*p)
+	}
+	var out []string
+	for _, bd := range bm.BlockData {
+		if bd == nil {
+			out = append(out, "?nil")
+			continue
+		}
+		h, b := "N", "N"
+		if bd.Header != nil {
+			h = "S" + vc.Render(*bd.Header)
+		}
+		if bd.Body != nil {
+			b = "S" + vc.Render(types.ExtrinsicsArrayToBytesArray(*bd.Body))
+		}
+		out = append(out, strings.Join([]string{vu.Hex(bd.Hash[:]), h, b, optBytes(bd.Receipt),
+			optBytes(bd.MessageQueue), optBytes(bd.Justification)}, "|"))
+	}
+	return strings.Join(out, ";")
+}
+
+func c33mRun(in string) string {
 	f := strings.Split(in, " ")
 	switch f[0] {
+	case "shape":
+		switch f[1] {
+		case "warp":
+			return vc.Names(messages.WarpProofRequest{})
+		case "breq":
+			return vc.Names(messages.BlockRequestMessage{})
+		case "bresp":
+			return vc.Names(types.BlockData{}) + ";" + vc.Names(types.Header{})
+		}
+		return "?"
 	case "dec":
 		data := vu.UnHex(f[3])
 		var text string
@@ -160,7 +217,7 @@ func c33Run(in string) string {
 		buckets := vc.Measure(len(data), func() {
 			switch f[1] {
 			case "warp":
-				w := &WarpProofRequest{}
+				w := &messages.WarpProofRequest{}
 				err = w.Decode(data)
 				if err == nil {
 					text = vc.Render(*w)
@@ -179,10 +236,10 @@ func c33Run(in string) string {
 		re := "re~"
 		if f[1] == "warp" {
 			re = "re0"
-			w := &WarpProofRequest{}
+			w := &messages.WarpProofRequest{}
 			if w.Decode(data) == nil {
 				if enc, e := w.Encode(); e == nil {
-					w2 := &WarpProofRequest{}
+					w2 := &messages.WarpProofRequest{}
 					if w2.Decode(enc) == nil && vc.Render(*w2) == text {
 						re = "re1"
 					}
@@ -203,12 +260,12 @@ func c33Run(in string) string {
 		if err != nil {
 			return "err:marshal"
 		}
-		bm := &BlockRequestMessage{}
+		bm := &messages.BlockRequestMessage{}
 		buckets := vc.Measure(len(data), func() { err = bm.Decode(data) })
 		if err != nil {
 			return "err " + buckets
 		}
-		show := func(m *BlockRequestMessage) string {
+		show := func(m *messages.BlockRequestMessage) string {
 			start := "?"
 			switch v := m.StartingBlock.RawValue().(type) {
 			case uint:
@@ -224,7 +281,7 @@ func c33Run(in string) string {
 		}
 		re := "re0"
 		if enc, e := bm.Encode(); e == nil {
-			bm2 := &BlockRequestMessage{}
+			bm2 := &messages.BlockRequestMessage{}
 			if bm2.Decode(enc) == nil && show(bm2) == show(bm) {
 				re = "re1"
 			}
@@ -247,6 +304,13 @@ func c33Run(in string) string {
 						payload += len(vu.UnHex(e))
 					}
 				}
+				if len(parts) == 7 {
+					bd.Hash = vu.UnHex(parts[2])
+					bd.Receipt = vu.UnHex(parts[3])
+					bd.MessageQueue = vu.UnHex(parts[4])
+					bd.Justification = vu.UnHex(parts[5])
+					bd.IsEmptyJustification = parts[6] == "1"
+				}
 				msg.Blocks = append(msg.Blocks, bd)
 			}
 		}
@@ -254,25 +318,33 @@ func c33Run(in string) string {
 		if err != nil {
 			return "err:marshal"
 		}
-		bm := &BlockResponseMessage{}
+		bm := &messages.BlockResponseMessage{}
 		buckets := vc.Measure(payload, func() { err = bm.Decode(data) })
 		if err != nil {
 			return "err " + buckets
 		}
-		return fmt.Sprintf("ok %x re~ %s", len(bm.BlockData), buckets)
+		view := c33mBlocksView(bm)
+		re := "re0"
+		if enc, e := bm.Encode(); e == nil {
+			bm2 := &messages.BlockResponseMessage{}
+			if bm2.Decode(enc) == nil && c33mBlocksView(bm2) == view {
+				re = "re1"
+			}
+		}
+		return fmt.Sprintf("ok %x %s %s %s", len(bm.BlockData), re, buckets, view)
 	case "pbraw":
 		data := vu.UnHex(f[2])
 		var err error
 		buckets := vc.Measure(len(data), func() {
 			switch f[1] {
 			case "breq":
-				err = (&BlockRequestMessage{}).Decode(data)
+				err = (&messages.BlockRequestMessage{}).Decode(data)
 			case "bresp":
-				err = (&BlockResponseMessage{}).Decode(data)
+				err = (&messages.BlockResponseMessage{}).Decode(data)
 			case "sreq":
-				err = (&StateRequest{}).Decode(data)
+				err = (&messages.StateRequest{}).Decode(data)
 			default:
-				err = (&StateResponse{}).Decode(data)
+				err = (&messages.StateResponse{}).Decode(data)
 			}
 		})
 		if err != nil {
@@ -283,4 +355,3 @@ func c33Run(in string) string {
 	return "err:badinput"
 }
 
-func TestVerifC33Messages(t *testing.T) { vu.Run(t, "C33", 10000, c33Gen, c33Run) }
